@@ -337,6 +337,11 @@ def judge_factory(rec, cfg):
                         v("C15", "user-once", f"machine {nid}: selector consulted {len(sels)} times in one step")
                     elif nxt and int(nxt[0].split()[1][1:]) != sels[0] and 0 <= sels[0]:
                         v("C15", "user-obeyed", f"machine {nid}: selector answered {sels[0]} but edge {nxt[0].split()[1]} was used")
+                # "a user callable or generator is consulted exactly once per item": a retrieval request placed by the in-edge side of a machine
+                # under a user policy follows a consultation in the same activation (however many in-edges there are)
+                if isinstance(inp, (list, tuple)) and p == 0 and not sels and any(x.startswith("rg ") for x in calls):
+                    v("C15", "user-once", f"machine {nid} at t={a['t']}: a retrieval was requested ({[x for x in calls if x.startswith('rg ')][0]}) without consulting the user "
+                                          f"in-edge selector (it has to be consulted exactly once per item)")
                 if res: awaited[p] = res
                 elif use: awaited.pop(p, None)
             # out-edge history: every push must have been recorded
@@ -419,6 +424,20 @@ def judge_pack_node(rec, nid, kind, n, c, acts, put_by, got_by, emit, pending, w
         for a in acts:
             if a["kind"] == "worker" and a["calls"] and (a["calls"][-1] == "await tok" or a["calls"][-1].startswith("await any")):
                 v("C09", "nonblocking-wait", f"non-blocking {kind} {nid}: its worker waits for space on an out-edge at t={a['t']}"); break
+    # C09 / C16, non-blocking FIRST_AVAILABLE: a unit (item or emptied pallet) is dropped only when NO out-edge has room.  The room of every
+    # out-edge is observed at the first probe of the activation and cannot change inside it (pushes run in processes started later)
+    if not blocking and c.get("out", "FIRST_AVAILABLE") == "FIRST_AVAILABLE":
+        pdisc = 0
+        for a in acts:
+            if a["stats"] is None: continue
+            d = a["stats"]["num_item_discarded"]
+            room = a.get("room")
+            if d > pdisc and room is not None and any(room):
+                for p_ in ("C09", "C16"):
+                    v(p_, "discard-with-room", f"non-blocking {kind} {nid} dropped {d - pdisc} unit(s) at t={a['t']} although out-edge {room.index(True)} had room "
+                                               f"(can_put per out-edge: {room}; probes made: {[x for x in a['calls'] if x.startswith('can ')]})")
+                break
+            pdisc = d
     # draws: one per unit of work, and the delay waited is the one drawn
     draws = [int(x.split()[1]) for a in acts for x in a["calls"] if x.startswith("draw ")]
     pds = [f2t(x) for x in st["processing_delay"]]
@@ -476,6 +495,10 @@ def judge_pack_node(rec, nid, kind, n, c, acts, put_by, got_by, emit, pending, w
         done = [u for (u, what, t, content) in emit]
         if done != exp[:len(done)]:
             v("C16", "emission-order", f"splitter {nid} emitted/dropped {done[:10]} but the incoming pallets dictate {exp[:10]}")
+            if not blocking:      # C09: every finished unit of a non-blocking node is pushed or dropped-and-counted at that instant, never neither
+                k0 = next((k for k, (x, y) in enumerate(zip(done, exp)) if x != y), len(done))
+                v("C09", "unaccounted-unit", f"non-blocking splitter {nid}: unit {exp[k0] if k0 < len(exp) else '?'} of an unpacked pallet was neither pushed nor dropped-and-counted "
+                                             f"(pushed/dropped in this order: {done[:10]}; the pallets contained {exp[:10]})")
         for (u, what, t, content) in emit:
             if what == "put" and content:
                 v("C16", "pallet-not-empty", f"splitter {nid} passed on pallet {u} still carrying {list(content)}")
